@@ -11,7 +11,7 @@ EXPLANATION = (
     "exact arithmetic on folding paths - no float()/math.*/float literals (R5); no call path from a "
     "handler to a symbol-creating constructor (R9); further rules (rebuild agreement, extracted "
     "rewrite rules vs identity tables, constant folds vs operator semantics, result sorts) are "
-    "decided by the abstract interpreter, see rules R2/R3/R4/R6/R7/R8 in the evidence.")
+    "decided by the abstract interpreter, see rules R2/R3/R4/R6/R7/R8 in the evidence.  Two real environments: the simplifier of the second (quantifier pruning included) answers the same whether or not the first worked on nodes with the same ids (R6).")
 NOT_DECIDED = [
     "equivalence of the sum/product normalisation loops of walk_plus/walk_times",
     "quantifier pruning beyond provenance of the kept variable set",
